@@ -68,10 +68,40 @@ fn sunion_line(ctx: &mut Ctx, b: &[u8]) {
     ctx.line(&format!("sunion\t{}\t{}", hex(b), r));
 }
 
+fn usel_line(ctx: &mut Ctx, b: u8) {
+    // UnionSelector::new, From<UnionSelector> for u8, PartialEq<u8>
+    let r = match catch(|| ssz::UnionSelector::new(b).map(|s| (u8::from(s), s == b, s == b.wrapping_add(1)))) {
+        Caught::Val(Ok((v, same, other))) => format!("ok {} {} {}", v, same as u8, other as u8),
+        Caught::Val(Err(_)) => "err".into(),
+        Caught::Panic => "panic".into(),
+    };
+    ctx.line(&format!("usel\t{}\t{}", b, r));
+}
+fn legacy_word_line(ctx: &mut Ctx, n: usize, b: &[u8]) {
+    // the legacy module's four-byte selector helpers
+    let w = ssz::legacy::encode_four_byte_union_selector(n);
+    let back = match catch(|| ssz::legacy::read_four_byte_union_selector(&w)) {
+        Caught::Val(Ok(x)) => format!("ok {}", x),
+        Caught::Val(Err(_)) => "err".into(),
+        Caught::Panic => "panic".into(),
+    };
+    let rd = match catch(|| ssz::legacy::read_four_byte_union_selector(b)) {
+        Caught::Val(Ok(x)) => format!("ok {}", x),
+        Caught::Val(Err(_)) => "err".into(),
+        Caught::Panic => "panic".into(),
+    };
+    ctx.line(&format!("word4\t{}\t{}\t{}\t{}\t{}", n, hex(&w), back, hex(b), rd));
+}
+
 pub fn helpers(ctx: &mut Ctx, count: usize) {
     roff_line(ctx, &[]);
     sunion_line(ctx, &[]);
     for a in 0..=255u8 {
+        usel_line(ctx, a);
+        legacy_word_line(ctx, a as usize, &[a]);
+        legacy_word_line(ctx, (a as usize) << 8, &[0, a, 0, 0]);
+        legacy_word_line(ctx, (a as usize) << 24, &[a, 0, 0, 0, 1]);
+        legacy_word_line(ctx, 0xffff_ff00 | a as usize, &[0, 0, 0, a]);
         sunion_line(ctx, &[a]);
         sunion_line(ctx, &[a, 0x55]);
         sunion_line(ctx, &[a, 1, 2, 3]);
@@ -85,6 +115,8 @@ pub fn helpers(ctx: &mut Ctx, count: usize) {
         let b = ctx.rng.bytes(n);
         roff_line(ctx, &b);
         sunion_line(ctx, &b);
+        let w = (ctx.rng.next() & 0xffff_ffff) as usize;
+        legacy_word_line(ctx, w, &b);
     }
 }
 
@@ -150,15 +182,38 @@ fn regs_str(regs: &[(bool, usize)]) -> String {
 }
 
 pub fn run_builder(regs: &[(bool, usize)], bytes: &[u8]) -> String {
+    run_builder_v(regs, bytes, 0)
+}
+
+/// `variant` chooses, item by item, between the parameterized entry points and the typed ones
+/// (`register_type::<T>`, `register_anonymous_variable_length_item`, `decode_next::<T>`) where a
+/// real type with the same metadata exists; the observable result must not depend on it.
+pub fn run_builder_v(regs: &[(bool, usize)], bytes: &[u8], variant: u64) -> String {
     let res = catch(|| -> Result<Vec<Vec<u8>>, DecodeError> {
         let mut b = SszDecoderBuilder::new(bytes);
-        for (f, l) in regs {
-            b.register_type_parameterized(*f, *l)?;
+        for (i, (f, l)) in regs.iter().enumerate() {
+            let typed = (variant >> (2 * (i % 32))) & 3;
+            match (*f, *l, typed) {
+                (false, 4, 1) => b.register_anonymous_variable_length_item()?,
+                (false, 4, 2) => b.register_type::<Vec<u8>>()?,
+                (true, 1, 1) => b.register_type::<u8>()?,
+                (true, 2, 1) => b.register_type::<u16>()?,
+                (true, 4, 1) => b.register_type::<[u8; 4]>()?,
+                (true, 8, 1) => b.register_type::<u64>()?,
+                (true, 0, 1) => b.register_type::<[u8; 0]>()?,
+                _ => b.register_type_parameterized(*f, *l)?,
+            }
         }
         let mut d = b.build()?;
         let mut out = vec![];
-        for _ in regs {
-            out.push(d.decode_next_with(|s| Ok(s.to_vec()))?);
+        for (i, (f, _)) in regs.iter().enumerate() {
+            let typed = (variant >> (2 * (i % 32))) & 3;
+            if !*f && typed == 3 {
+                // Vec<u8> decodes to exactly its slice
+                out.push(d.decode_next::<Vec<u8>>()?);
+            } else {
+                out.push(d.decode_next_with(|s| Ok(s.to_vec()))?);
+            }
         }
         Ok(out)
     });
@@ -173,7 +228,8 @@ pub fn run_builder(regs: &[(bool, usize)], bytes: &[u8]) -> String {
 }
 
 pub fn builder_case(ctx: &mut Ctx, regs: &[(bool, usize)], bytes: &[u8]) {
-    let r = run_builder(regs, bytes);
+    let variant = ctx.rng.next();
+    let r = run_builder_v(regs, bytes, variant);
     ctx.line(&format!("builder\t{}\t{}\t{}", regs_str(regs), hex(bytes), r));
 }
 
